@@ -48,8 +48,10 @@ Record view := {
   v_clock : list N;      (* m.clock (live) *)
   v_qtick : N;           (* m.queueTick *)
   v_running : bool;      (* m.queueRunning *)
-  v_window : bool        (* the call runs between setActiveStates and ProcessStateCtx of the
+  v_window : bool;       (* the call runs between setActiveStates and ProcessStateCtx of the
                             transition in flight (informative: the manager does not read it) *)
+  v_applied : bool       (* the call runs between setActiveStates and processSubscriptions of
+                            the transition in flight (informative) *)
 }.
 
 Inductive sop :=
